@@ -52,7 +52,23 @@ RingVec == {[f |-> f, a |-> <<WArg(x), WArg(y)>>, ring |-> TRUE] :
                     f \in {"fn:plus", "fn:mult", "fn:minus"}, x \in {Max64(0), Min64(0), Min64(1), Small(2)}, y \in {Max64(1), Min64(0), Small(-1), Small(3)}, z \in {Max64(0), Small(1), Small(-2)}}
            \cup {[f |-> r, a |-> <<WArg(x), WArg(y), WArg(z)>>, ring |-> TRUE] :
                     r \in {"fn:sum", "fn:min", "fn:max"}, x \in {Max64(0), Min64(1), Small(2)}, y \in {Max64(1), Min64(0), Small(-1)}, z \in {Max64(0), Min64(0), Small(1)}}
-Cases == CASE Mode = "arith" -> Arith [] Mode = "struct" -> Struct [] Mode = "cmp" -> Cmp [] Mode = "red" -> Red [] Mode = "ring" -> RingVec
+\* matching predicates: every solution (bindings of the output variables) - structured keys / elements included
+MVals == {Num(1), Str("a"), Nm("/k"), List(<<Num(1)>>), List(<<>>), Pair(Num(1), Str("a")), MapV(<<<<Num(1), Num(2)>>>>)}
+MMaps == {MapV(<<>>), MapV(<<<<Num(1), Str("one")>>>>), MapV(<<<<List(<<Num(1)>>), Str("l")>>, <<Pair(Num(1), Str("a")), Str("p")>>>>),
+          MapV(<<<<MapV(<<<<Num(1), Num(2)>>>>), Num(5)>>, <<List(<<>>), Num(6)>>>>), Num(1)}
+MStructs == {StructV(<<>>), StructV(<<<<Nm("/a"), Num(5)>>, <<Nm("/b"), List(<<Num(1)>>)>>>>), Str("a")}
+MLists == {List(<<>>), List(<<Num(1), Num(1)>>), List(<<List(<<Num(1)>>), Pair(Num(1), Str("a")), List(<<>>)>>), Num(1)}
+VV(n) == Var(n)
+Match == {[f |-> ":match_entry", a |-> <<m, k, VV("V")>>] : m \in MMaps, k \in MVals}
+         \cup {[f |-> ":match_entry", a |-> <<m, k, v>>] : m \in MMaps, k \in {Num(1), List(<<Num(1)>>)}, v \in {Str("one"), Str("l")}}
+         \cup {[f |-> ":match_field", a |-> <<st, k, VV("V")>>] : st \in MStructs, k \in {Nm("/a"), Nm("/b"), Nm("/c")}}
+         \cup {[f |-> ":match_pair", a |-> <<p, VV("A"), VV("B")>>] : p \in MVals}
+         \cup {[f |-> ":match_pair", a |-> <<Pair(x, x), VV("A"), VV("A")>>] : x \in {Num(1), List(<<Num(1)>>)}}
+         \cup {[f |-> ":match_cons", a |-> <<l, VV("H"), VV("T")>>] : l \in MLists}
+         \cup {[f |-> ":match_nil", a |-> <<l>>] : l \in MLists}
+         \cup {[f |-> ":list:member", a |-> <<VV("X"), l>>] : l \in MLists}
+         \cup {[f |-> ":list:member", a |-> <<x, l>>] : x \in MVals, l \in MLists}
+Cases == CASE Mode = "match" -> Match [] Mode = "arith" -> Arith [] Mode = "struct" -> Struct [] Mode = "cmp" -> Cmp [] Mode = "red" -> Red [] Mode = "ring" -> RingVec
 Init == c = <<>>
 Next == c = <<>> /\ c' \in Cases
 Emit == c # <<>> => PrintT(<<"CASE", ToJson(c)>>)
